@@ -3,7 +3,7 @@ CONSTANTS
   NameSeq <- NS2
   Vals = {"x", "y", "f"}
   EqVals = {"", "x"}
-  ReSyms = {".*", ".+", "<x>|<y>"}
+  ReSyms = {".+", "<x>|<y>"}
   PairEqVals = {}
   PairReSyms = {}
   MaxMs = 1
